@@ -587,4 +587,54 @@ theorem runJobs_invariant {δ : Type} (I : Interp δ) (P : List Tpl) (fuel : Nat
     rw [← this.1 s hs]
     exact (hev σ.amb j s hs).symm
 
+/-! ### Renderings with a per-call line buffer -/
+
+theorem runRenderings_perCall_reset (pps : List PP) (ss : List Nat) (buf : Str) (rs : List Rendering) :
+    runRenderings true true pps ss buf rs =
+      rs.map fun r => if pps.isEmpty then r.chunks.flatten
+                      else write (pipeLinesSt pps (zeros pps) (bufLines [] r).1).1 := by
+  induction rs generalizing ss buf with
+  | nil => rfl
+  | cons r rs ih =>
+    by_cases hp : pps.isEmpty = true
+    · simp [runRenderings, ih, hp]
+    · simp [runRenderings, ih, hp]
+
+theorem fileOut_no_processors (ss : List Nat) (text : Str) : (fileOut [] ss text).1 = text := by
+  have h : ∀ (ls : List Line) (ss : List Nat), (pipeLinesSt [] ss ls).1 = ls := by
+    intro ls
+    induction ls with
+    | nil => intro ss; rfl
+    | cons l ls ih => intro ss; simp [pipeLinesSt, pipeLine, ih]
+  simp only [fileOut, h]
+  exact write_scan [] text
+
+theorem bufLines_complete (chunks : List Str) : (bufLines [] ⟨chunks, false⟩).1 = genLines chunks := by
+  simp [bufLines, genLines]
+
+/-! ### A cache keyed through a projection -/
+
+theorem memoRunBy_transparent {κ κ' ν : Type} [DecidableEq κ'] (π : κ → κ') (f : κ → ν)
+    (hdet : ∀ k k', π k = π k' → f k = f k') (cache : List (κ' × ν)) (hv : CacheValidBy π f cache) (ks : List κ) :
+    (memoRunBy π f cache ks).1 = ks.map f ∧ CacheValidBy π f (memoRunBy π f cache ks).2 := by
+  induction ks generalizing cache with
+  | nil => exact ⟨rfl, hv⟩
+  | cons k ks ih =>
+    simp only [memoRunBy, List.map_cons]
+    cases h : cacheFind cache (π k) with
+    | some v =>
+      have e : v = f k := hv _ (cacheFind_mem cache (π k) v h) k rfl
+      simp only [memoGetBy, h]
+      obtain ⟨a, b⟩ := ih cache hv
+      exact ⟨by rw [a, e], b⟩
+    | none =>
+      simp only [memoGetBy, h]
+      have hv' : CacheValidBy π f ((π k, f k) :: cache) := by
+        intro p hp k' hk'
+        rcases List.mem_cons.mp hp with rfl | hp
+        · exact hdet k k' hk'.symm
+        · exact hv p hp k' hk'
+      obtain ⟨a, b⟩ := ih _ hv'
+      exact ⟨by rw [a], b⟩
+
 end NunavutVerif.ProcState
